@@ -131,7 +131,9 @@ def run(cfg, V):
             pass
     if r == "scalar.GetValue":
         s = Scalar(x, u, cat)
-        return {"vals": [s.GetValue(v)], "own": s.GetValue(s.GetUnit()) is x and s.GetValue() is x, "own_spelled": [s.GetValue(u)]}
+        cu2 = (s.GetUnit() + "_")[:-1]  # an equal unit string that is a different object (e.g. parsed from text)
+        return {"vals": [s.GetValue(v)], "own": s.GetValue(s.GetUnit()) is x and s.GetValue() is x and s.GetValue(cu2) is x and s.CreateCopy(unit=cu2).GetValue() is x,
+                "own_spelled": [s.GetValue(u)]}
     if r == "scalar.CreateCopy":
         s = Scalar(x, u, cat)
         c = s.CreateCopy(unit=v)
@@ -220,8 +222,11 @@ def run(cfg, V):
         a = Array([x], u, cat)
         q = ObtainQuantity(u, cat)
         cu = s.GetUnit()  # the current spelling of the object's own unit
+        cu2 = (cu + "_")[:-1]  # equal text, different string object
         return {"own": s.GetValue(cu) is x and q.ConvertScalarValue(x, cu) is x and q.Convert(x, cu) is x and a.GetValues(cu)[0] is x
-                and db.Convert(cat, u, u, x) is x and db.Convert(cat, cu, cu, x) is x, "vals": []}
+                and db.Convert(cat, u, u, x) is x and db.Convert(cat, cu, cu, x) is x
+                and s.GetValue(cu2) is x and q.ConvertScalarValue(x, cu2) is x and q.Convert(x, cu2) is x and a.GetValues(cu2)[0] is x and db.Convert(cat, cu2, cu, x) is x,
+                "vals": []}
     if r == "own-unit.derived":
         op, a, b = cfg["spec"]
         if op == "divnum":
